@@ -1,5 +1,5 @@
 # open findings (exec'd by gen_known.py)
-open_("K01", "C12", "BehaviorSubject: a subscriber that arrives while pushes are in progress can miss a value (hand-over of the latest value and registration in the inner subject are two steps): producer pushes 100 101 102, late subscriber receives only <101>",
+open_("K01", "C12", "BehaviorSubject: a subscriber that arrives while pushes are in progress can miss a value or receive one twice (hand-over of the latest value and registration in the inner subject are two steps): e.g. producer pushes 100 101 102, late subscriber receives only <101>, or <100 100 101>",
       "known/C12-behavior-late-subscriber-gap.json", "no_late_behavior_subscriber")
 open_("K02", "C12", "ReplaySubject: a subscriber that arrives while pushes are in progress can receive an item twice or out of order (registration in the inner subject and replay of the history are two steps): producer pushes 100 101, late subscriber receives <100 100 101>",
       "known/C12-replay-late-subscriber-duplicate.json", "no_late_replay_subscriber")
